@@ -557,6 +557,11 @@ class DateTimeFieldFormat(AbstractFieldFormat):
         ("mm", "%M"),
         ("ss", "%S"),
     )
+    # All placeholders are replaced in a single pass from left to right. Replacing one after the other would let
+    # a later placeholder match text an earlier replacement produced, for example "MMmm" would become "%m" + "mm",
+    # which then reads as "%" + "%M" + "m".
+    _HUMAN_READABLE_REGEX = re.compile("|".join(re.escape(item) for item, _ in _HUMAN_READABLE_TO_STRPTIME_TUPLES))
+    _HUMAN_READABLE_TO_STRPTIME_MAP = dict(_HUMAN_READABLE_TO_STRPTIME_TUPLES)
     _STRPTIME_TIME_DIRECTIVES = ("%H", "%M", "%S")
     _STRPTIME_DATE_DIRECTIVES = ("%d", "%m", "%y", "%Y")
     _NO_EXCEL_TIME = " 00:00:00"
@@ -566,9 +571,9 @@ class DateTimeFieldFormat(AbstractFieldFormat):
         super().__init__(field_name, is_allowed_to_be_empty, length, rule, data_format, empty_value)
         self.human_readable_format = rule
 
-        self.strptime_format = rule
-        for human_readyble_item, strptime_item in DateTimeFieldFormat._HUMAN_READABLE_TO_STRPTIME_TUPLES:
-            self.strptime_format = self.strptime_format.replace(human_readyble_item, strptime_item)
+        self.strptime_format = DateTimeFieldFormat._HUMAN_READABLE_REGEX.sub(
+            lambda match: DateTimeFieldFormat._HUMAN_READABLE_TO_STRPTIME_MAP[match.group()], rule
+        )
         self._has_time = any(
             directive in self.strptime_format for directive in DateTimeFieldFormat._STRPTIME_TIME_DIRECTIVES
         )
